@@ -1089,7 +1089,7 @@ func specOfScalar(v any) *spec.Spec {
 // Get(key) says.
 func c14Current(c *fw.Ctx, r *rng.R) {
 	n := r.Range(3, 9)
-	view := r.Intn(4)
+	view := r.Intn(8)
 	prelude := r.Intn(4)
 	inL := func() string {
 		return fmt.Sprintf("list of %d strings (prelude %d: 0 none, 1 SubList taken, 2 Concat taken, 3 Clone taken); untyped view %d whose first callback replaces all later elements", n, prelude, view)
@@ -1135,8 +1135,16 @@ func c14Current(c *fw.Ctx, r *rng.R) {
 				l.ForEachValue(func(v any) { see(idx, v); idx++ })
 			case 2:
 				l.Map(func(i int, v any) any { see(i, v); return v })
-			default:
+			case 3:
 				l.ForEachString(func(v string) { see(idx, v); idx++ })
+			case 4:
+				l.Reduce(0, func(acc, v any) any { see(idx, v); idx++; return acc })
+			case 5:
+				l.ReduceStrings("", func(acc, v string) string { see(idx, v); idx++; return acc })
+			case 6:
+				l.Filter(func(v any) bool { see(idx, v); idx++; return true })
+			default:
+				l.MapStrings(func(v string) any { see(idx, v); idx++; return v })
 			}
 		})
 		if pan {
@@ -1145,6 +1153,48 @@ func c14Current(c *fw.Ctx, r *rng.R) {
 		}
 		if bad != "" {
 			c.Violate("view-wrong:stale-value", inL(), "every element is handed over with the value Get returns at that moment", bad)
+		}
+	})
+	// a filter keeps what its predicate approved: the predicate replaces the element it is looking at and says yes; the
+	// result holds the value the predicate was given (the replaced slot is the list's business, not the result's)
+	fview := r.Intn(3)
+	inF := func() string {
+		return fmt.Sprintf("Filter variant %d over the ints 0..%d whose predicate replaces the current element by a string and returns true", fview, n-1)
+	}
+	guard(c, inF, func() {
+		c.Distinct(inF())
+		l := at.NewList()
+		for i := 0; i < n; i++ {
+			l.Add(i)
+		}
+		idx := 0
+		var res at.List
+		pan, msg := drive.Protect(func() {
+			switch fview {
+			case 0:
+				res = l.Filter(func(v any) bool { l.Replace(idx, fmt.Sprintf("replaced%d", idx)); idx++; return true })
+			case 1:
+				res = l.FilterInts(func(v int) bool { l.Replace(v, fmt.Sprintf("replaced%d", v)); return true })
+			default:
+				res = l.FilterInts(func(v int) bool { l.Replace(v, float64(v)+0.5); return v%2 == 0 })
+			}
+		})
+		if pan {
+			c.Violate("view-wrong:filter-result", inF(), "the call returns", "panic: "+msg)
+			return
+		}
+		var want []int
+		for i := 0; i < n; i++ {
+			if fview != 2 || i%2 == 0 {
+				want = append(want, i)
+			}
+		}
+		ok := res.Count() == len(want)
+		for j := 0; ok && j < len(want); j++ {
+			ok = res.Get(j) == any(want[j])
+		}
+		if !ok {
+			c.Violate("view-wrong:filter-result", inF(), fmt.Sprintf("the values the predicate approved: %v", want), stringCanon(res))
 		}
 	})
 	m := r.Range(2, 7)
